@@ -82,6 +82,20 @@ def is_default_constructed(fn, nid):
             return is_default_constructed(fn, args[0]) and fn.nodes[fn.strip(args[0])]["k"] == "InitListExpr"
     if n["k"] == "CXXFunctionalCastExpr":
         return is_default_constructed(fn, n["ch"][0])
+    if n["k"] in ("CXXConstructExpr",) and len(n.get("ch", [])) == 1:
+        return is_default_constructed(fn, n["ch"][0])     # copy/move of the expression below
+    if n["k"] == "DeclRefExpr" and n.get("dk") == "var":
+        # a local that was default-constructed and is mentioned nowhere else (ValueT nothing{}; return nothing;)
+        decl = None
+        for i in nodes_of(fn, "DeclStmt"):
+            for d in fn.nodes[i]["decls"]:
+                if d.get("d") == n.get("d"):
+                    decl = d
+        if decl is None or decl.get("ref") or decl.get("static") or decl.get("tk") == "ptr":
+            return False
+        init_ok = decl.get("init", -1) < 0 and decl.get("tk") == "rec" or (decl.get("init", -1) >= 0 and is_default_constructed(fn, decl["init"]))
+        others = [i for i in fn.walk() if fn.nodes[i]["k"] == "DeclRefExpr" and fn.nodes[i].get("d") == n.get("d") and i != nid]
+        return bool(init_ok) and not others
     return False
 
 
